@@ -50,9 +50,10 @@ VARIABLES queue,      \* [Keys -> Seq([id, owner])]
           cancelled,  \* [Procs -> the context of the current Lock call is cancelled]
           stale,      \* ids that were granted and later released or expired
           calls,      \* [Procs -> API calls made]
+          wd,         \* ids whose TTL watchdog goroutine (timer, caller struct) is alive
           last        \* last action (observation only)
 
-vars == <<queue, qmap, nextId, pc, key, cur, ready, cancelled, stale, calls, last>>
+vars == <<queue, qmap, nextId, pc, key, cur, ready, cancelled, stale, calls, wd, last>>
 
 Lbl(a, p, k, id, res) == last' = [a |-> a, p |-> p, k |-> k, id |-> id, res |-> res]
 
@@ -60,7 +61,7 @@ Init ==
   /\ queue = [k \in Keys |-> <<>>] /\ qmap = {} /\ nextId = 0
   /\ pc = [p \in Procs |-> "idle"] /\ key = [p \in Procs |-> ""] /\ cur = [p \in Procs |-> 0]
   /\ ready = [p \in Procs |-> FALSE] /\ cancelled = [p \in Procs |-> FALSE]
-  /\ stale = {} /\ calls = [p \in Procs |-> 0]
+  /\ stale = {} /\ calls = [p \in Procs |-> 0] /\ wd = {}
   /\ last = [a |-> "Init", p |-> "", k |-> "", id |-> 0, res |-> 0]
 
 MayCall(p) == Budget = 0 \/ calls[p] < Budget
@@ -93,11 +94,12 @@ Enq(p, k) ==
      /\ cancelled' = [cancelled EXCEPT ![p] = FALSE]
      /\ calls' = [calls EXCEPT ![p] = @ + 1]
      /\ Lbl("Enq", p, k, id, IF queue[k] = <<>> THEN 1 ELSE 0)
-  /\ UNCHANGED stale
+  /\ UNCHANGED <<stale, wd>>
 
 Acquire(p) ==
   /\ pc[p] = "waiting" /\ ready[p]
   /\ pc' = [pc EXCEPT ![p] = "holding"]
+  /\ wd' = wd \cup {cur[p]}                      \* the auto-unlock watchdog of this grant starts
   /\ Lbl("Acquire", p, key[p], cur[p], cur[p])
   /\ UNCHANGED <<queue, qmap, nextId, key, cur, ready, cancelled, stale, calls>>
 
@@ -105,7 +107,7 @@ CancelCtx(p) ==
   /\ pc[p] = "waiting" /\ ~cancelled[p]
   /\ cancelled' = [cancelled EXCEPT ![p] = TRUE]
   /\ Lbl("CancelCtx", p, key[p], cur[p], 0)
-  /\ UNCHANGED <<queue, qmap, nextId, pc, key, cur, ready, stale, calls>>
+  /\ UNCHANGED <<queue, qmap, nextId, pc, key, cur, ready, stale, calls, wd>>
 
 \* (AbortBody: the effect alone; trace validation does not see the cancellation itself)
 AbortBody(p) ==
@@ -114,7 +116,7 @@ AbortBody(p) ==
   /\ pc' = [pc EXCEPT ![p] = "idle"]
   /\ key' = [key EXCEPT ![p] = ""] /\ cur' = [cur EXCEPT ![p] = 0]
   /\ Lbl("Abort", p, key[p], cur[p], 0)
-  /\ UNCHANGED <<nextId, cancelled, stale, calls>>
+  /\ UNCHANGED <<nextId, cancelled, stale, calls, wd>>
 
 Abort(p) == cancelled[p] /\ AbortBody(p)
 
@@ -136,7 +138,7 @@ Unlock(p, k, id) ==
           /\ stale' = IF own THEN stale \cup {id} ELSE stale
        /\ Lbl("Unlock", p, k, id, IF f THEN 1 ELSE 0)
   /\ calls' = [calls EXCEPT ![p] = @ + 1]
-  /\ UNCHANGED <<nextId, cancelled>>
+  /\ UNCHANGED <<nextId, cancelled, wd>>
 
 \* the TTL of p's grant fires; afterwards p's id is just a stale id
 Expire(p) ==
@@ -146,18 +148,29 @@ Expire(p) ==
   /\ key' = [key EXCEPT ![p] = ""] /\ cur' = [cur EXCEPT ![p] = 0]
   /\ stale' = stale \cup {cur[p]}
   /\ Lbl("Expire", p, key[p], cur[p], 1)
-  /\ UNCHANGED <<nextId, cancelled, calls>>
+  /\ UNCHANGED <<nextId, cancelled, calls, wd>>
+
+\* the watchdog of a grant that has left its queue (unlocked: `done` is closed; or expired: its own remove) goes away,
+\* and with it the timer and the caller struct it keeps alive
+Queued == UNION {{queue[k][i].id : i \in DOMAIN queue[k]} : k \in Keys}
+WdExit(id) ==
+  /\ id \in wd /\ id \notin Queued
+  /\ wd' = wd \ {id}
+  /\ Lbl("WdExit", "", "", id, 0)
+  /\ UNCHANGED <<queue, qmap, nextId, pc, key, cur, ready, cancelled, stale, calls>>
 
 Next ==
   \/ \E p \in Procs, k \in Keys : Enq(p, k)
   \/ \E p \in Procs : Acquire(p) \/ CancelCtx(p) \/ Abort(p) \/ Expire(p)
   \/ \E p \in Procs : \E kid \in Unlockable(p) : Unlock(p, kid[1], kid[2])
+  \/ \E id \in wd : WdExit(id)
 
 \* nothing in flight: allowed to stutter, so that TLC's deadlock check means "somebody is blocked for good"
-AtRest == (\A p \in Procs : pc[p] = "idle") /\ UNCHANGED vars
+AtRest == (\A p \in Procs : pc[p] = "idle") /\ wd = {} /\ UNCHANGED vars
 
 \* The select takes an enabled branch; every TTL eventually fires.  Nobody has to unlock or cancel.
-Fairness == \A p \in Procs : WF_vars(Acquire(p) \/ Abort(p)) /\ WF_vars(Expire(p))
+Fairness == /\ \A p \in Procs : WF_vars(Acquire(p) \/ Abort(p)) /\ WF_vars(Expire(p))
+            /\ WF_vars(\E id \in wd : WdExit(id))
 
 Spec == Init /\ [][Next \/ AtRest]_vars /\ Fairness
 
@@ -166,7 +179,7 @@ Spec == Init /\ [][Next \/ AtRest]_vars /\ Fairness
 
 TypeOK ==
   /\ pc \in [Procs -> {"idle", "waiting", "holding"}]
-  /\ qmap \subseteq Keys /\ nextId \in Nat
+  /\ qmap \subseteq Keys /\ nextId \in Nat /\ wd \subseteq 1..nextId
 
 Holders(k) == {p \in Procs : pc[p] = "holding" /\ key[p] = k}
 
@@ -212,6 +225,12 @@ NoStuckWaiter == \A p \in Procs : (pc[p] = "waiting") ~> (pc[p] # "waiting")
 (* C28 *)
 \* no per-key state is kept for a key nobody holds or waits for
 NoResidue == \A k \in Keys : k \in qmap => queue[k] # <<>>
+\* no watchdog (goroutine + timer + caller struct) is kept for a grant that is over: one exists only for current
+\* grants, and the one of a finished grant goes away without waiting for its TTL
+WatchdogOfGrant == \A p \in Procs : pc[p] = "holding" => cur[p] \in wd
+NoWatchdogResidue == \A id \in 1..(Cardinality(Procs) * Budget) : (id \in wd /\ id \notin Queued) ~> (id \notin wd)
+\* at a point of rest (nobody can take a step on his own) the only watchdogs are those of current grants
+WdQuiescent == \A id \in wd : id \in Queued
 \* and a key somebody holds or waits for has its queue
 QueuePresent == \A k \in Keys : queue[k] # <<>> => k \in qmap
 
